@@ -33,7 +33,7 @@ class Pair:
 
     def __init__(self, mdib=None, fixture=FIXTURE_ONE, async_mgr=False, reference_params=False, with_consumer=True,
                  provider_ssl=None, consumer_ssl=None, force_ssl=False, role_provider='example',
-                 max_subscription_duration=15, shared_server=True, keep_ctx_states=False, consumer_init_mdib=True,
+                 max_subscription_duration=7200, shared_server=True, keep_ctx_states=False, consumer_init_mdib=True,
                  alternative_hostname=None, deferred_dispatch=False, instance_id=1, sequence_id=None):
         _load_repo()
         from sdc11073.consumer.consumerimpl import SdcConsumer, default_components_factory
@@ -98,6 +98,12 @@ class Pair:
             if consumer_init_mdib:
                 self.cmdib = ConsumerMdib(self.consumer)
                 self.cmdib.init_mdib()
+            self.renew_all()
+
+    def renew_all(self, seconds=3600):
+        """Renew all consumer subscriptions (long-lived sessions outlive the 60 s the consumer asks for)."""
+        for sub in list(self.consumer.subscription_mgr.subscriptions.values()):
+            sub.renew(seconds)
 
     def stop(self):
         """Stop without waiting for the 1 s sleep loops of the (daemon) housekeeping / renew threads."""
